@@ -45,7 +45,8 @@ SIG_LOCLOC = "history/by-location-of-location-ValueError"
 SIG_SPLIT_ATTR = "split/group-attribute-cycle-not-renumbered"
 # shapes of candidate armi defects: avoided by construction in the search (counted as excluded:<sig>), exercised by part known_shapes
 # all three were repaired in /repo (fix: commits bb6b5f5, 8cac548, 9c3bcc9): the shapes are searched again
-EXCLUDE_KNOWN = {SIG_UNSTORED: False, SIG_LOCLOC: False, SIG_SPLIT_ATTR: False}
+SIG_PRELOAD = "tracker/preloaded-current-written-step-is-live-value"
+EXCLUDE_KNOWN = {SIG_UNSTORED: False, SIG_LOCLOC: False, SIG_SPLIT_ATTR: False, SIG_PRELOAD: True}
 
 LABELS = [None, "EOL", "error", "BOL", "-special"]
 
@@ -956,8 +957,12 @@ def _layouts(tier):
     return res
 
 
-def schedule(cycles, burn, coupled):
-    """Reference schedule: list of ('hook', hook, pos, cycle, node) and ('write', cycle, node, label) in run order."""
+def schedule(cycles, burn, coupled, skip=()):
+    """Reference schedule: list of ('hook', hook, pos, cycle, node) and ('write', cycle, node, label) in run order.
+
+    With tight coupling the database interface leaves the node write to the operator, which writes once after the coupled
+    iterations; in a cycle listed in ``cyclesSkipTightCouplingInteraction`` the Coupled hooks are not called but the node is
+    still written (every node is written exactly once)."""
     ev = [("hook", "BOL", "A", 0, 0), ("hook", "BOL", "B", 0, 0)]
     for c in range(cycles):
         ev += [("hook", "BOC", "A", c, 0), ("hook", "BOC", "B", c, 0)]
@@ -967,21 +972,35 @@ def schedule(cycles, burn, coupled):
                 ev.append(("write", c, n, None))
             ev.append(("hook", "EveryNode", "B", c, n))
             if coupled:
-                ev += [("hook", "Coupled", "A", c, n), ("hook", "Coupled", "B", c, n), ("write", c, n, None)]
+                if c not in skip:
+                    ev += [("hook", "Coupled", "A", c, n), ("hook", "Coupled", "B", c, n)]
+                ev.append(("write", c, n, None))
         ev += [("hook", "EOC", "A", c, burn), ("hook", "EOC", "B", c, burn)]
     ev += [("hook", "EOL", "A", cycles - 1, burn), ("write", cycles - 1, burn, "EOL"), ("close",), ("hook", "EOL", "B", cycles - 1, burn)]
     return ev
+
+
+def _skip_variants(cycles, coupled):
+    """cyclesSkipTightCouplingInteraction: empty / one cycle / all cycles (meaningful with tight coupling only)."""
+    if not coupled:
+        return [[]]
+    res = [[]]
+    if cycles > 1:
+        res.append([cycles // 2])
+    res.append(list(range(cycles)))
+    return res
 
 
 def fault_enum(tier):
     cases = []
     for (c, b) in _layouts(tier):
         for coupled in (False, True):
-            base = {"cycles": c, "burnSteps": b, "coupled": coupled}
-            cases.append(dict(base, fault=None))
-            for e in schedule(c, b, coupled):
-                if e[0] == "hook":
-                    cases.append(dict(base, fault={"hook": e[1], "pos": e[2], "cycle": e[3], "node": e[4]}))
+            for skip in _skip_variants(c, coupled):
+                base = {"cycles": c, "burnSteps": b, "coupled": coupled, "skip": skip}
+                cases.append(dict(base, fault=None))
+                for e in schedule(c, b, coupled, skip):
+                    if e[0] == "hook":
+                        cases.append(dict(base, fault={"hook": e[1], "pos": e[2], "cycle": e[3], "node": e[4]}))
     return cases
 
 
@@ -993,8 +1012,9 @@ def fault_execute(case):
 
     out = Out()
     cycles, burn, coupled, fault = case["cycles"], case["burnSteps"], case["coupled"], case["fault"]
+    skip = list(case.get("skip", []))
     settings = {"nCycles": cycles, "burnSteps": burn, "cycleLength": 100.0, "power": 1.0e6, "tightCoupling": coupled,
-                "availabilityFactor": 0.9}
+                "availabilityFactor": 0.9, "cyclesSkipTightCouplingInteraction": skip}
     cs, bp, r = rg.build(FAULT_SPEC, settings)
     r.sort()
     fn = "c06b_%d.h5" % os.getpid()
@@ -1006,7 +1026,7 @@ def fault_execute(case):
     seq = [0]
     captured = {}  # (hook, pos, cycle, node) -> snapshot
     trace = []
-    ev = schedule(cycles, burn, coupled)
+    ev = schedule(cycles, burn, coupled, skip)
     # recorder hooks after which the database writes: the state there is the expected snapshot content
     pre_write = set()
     for i, e in enumerate(ev):
@@ -1101,7 +1121,8 @@ def fault_execute(case):
         nodes_before = len([x for x in expect if x[2] is None])
         out.nontrivial = fkey is not None and nodes_before >= 1 and not after_close
         out.label("hook:%s" % (fkey[0] if fkey else "none"), "pos:%s" % (fkey[1] if fkey else "-"), "coupled" if coupled else "uncoupled",
-                  "layout:%dx%d" % (cycles, burn), "writes-before-fault:%s" % ("n/a" if fkey is None else min(nodes_before, 3)))
+                  "layout:%dx%d" % (cycles, burn), "writes-before-fault:%s" % ("n/a" if fkey is None else min(nodes_before, 3)),
+                  "skipped-coupling:%s" % ("none" if not skip else "all" if len(skip) == cycles else "one"))
         if after_close:
             out.label("after-close(outside statement)")
         # ---- the file
@@ -1139,6 +1160,195 @@ def fault_execute(case):
         if dbi._db is not None and dbi._db.isOpen():
             dbi._db.close(False)
         _rm(fn)
+    return out
+
+
+# ---------------------------------------------------------------------------------------------------------------------
+# Part C: the history tracker interface in a real run
+
+
+def tracker_enum(tier):
+    cases = []
+    for (c, b) in _layouts(tier):
+        for coupled in (False, True):
+            for skip in _skip_variants(c, coupled):
+                for preload in (False, True):
+                    cases.append({"cycles": c, "burnSteps": b, "coupled": coupled, "skip": skip, "preload": preload})
+    return cases
+
+
+def tracker_execute(case):
+    """Fault-free operator run with armi's HistoryTrackerInterface in the stack (before the database interface, as its ORDER
+    puts it; detail assembly chosen through ``detailAssemLocationsBOL``).  Recorder A (before the database) and recorder B
+    (after it) change the tracked block parameters at every hook and keep their own log of the values at each database
+    write.  After its change every recorder hook asks ``getBlockHistoryVal`` for every step written so far and for the current
+    step: a written step must give the value logged at its write, whatever was changed later; the current, unwritten step
+    gives the live value (documented)."""
+    from armi import interfaces, operators
+    from armi.bookkeeping.db.databaseInterface import DatabaseInterface
+    from armi.bookkeeping.historyTracker import HistoryTrackerInterface
+
+    out = Out()
+    cycles, burn, coupled, skip, preload = case["cycles"], case["burnSteps"], case["coupled"], list(case["skip"]), case["preload"]
+    settings = {"nCycles": cycles, "burnSteps": burn, "cycleLength": 100.0, "power": 1.0e6, "tightCoupling": coupled,
+                "availabilityFactor": 0.9, "cyclesSkipTightCouplingInteraction": skip, "detailAssemLocationsBOL": ["001-001"]}
+    cs, bp, r = rg.build(FAULT_SPEC, settings)
+    r.sort()
+    fn = "c06c_%d.h5" % os.getpid()
+    _rm(fn)
+    o = operators.Operator(cs)
+    o.r = r
+    r.o = o
+    dbi = DatabaseInterface(r, cs)
+    hti = HistoryTrackerInterface(r, cs)
+    ev = schedule(cycles, burn, coupled, skip)
+    pre_write = {}  # recorder hook -> (cycle, node) of the unlabelled write that follows it
+    closed_after = None
+    last = None
+    for e in ev:
+        if e[0] == "hook":
+            last = e[1:]
+        elif e[0] == "write" and e[3] is None:
+            pre_write[last] = (e[1], e[2])
+        elif e[0] == "close":
+            closed_after = last
+    blocks = [b for a in r.core for b in a]
+    tracked = [blocks[0], blocks[-1]]
+    names = [b.getName() for b in tracked]
+    params = ["power", "flux"]
+    seq = [0]
+    log = {}  # (cycle, node) -> {(block name, param): value at the write}
+    written = []
+    state = {"closed": False, "queries": 0, "current-written": 0, "current-live": 0, "past": 0}
+
+    class Opener(interfaces.Interface):
+        name = "opener"
+
+        def interactBOL(self):
+            dbi.initDB(fName=fn)
+
+    class Recorder(interfaces.Interface):
+        name = "recorder"
+
+        def __init__(self, r, cs, pos):
+            interfaces.Interface.__init__(self, r, cs)
+            self.name = "recorder" + pos
+            self.pos = pos
+
+        def getHistoryParams(self):
+            return ["power"] if self.pos == "A" else ["flux"]
+
+        def _hit(self, hook):
+            cur = (int(self.r.p.cycle), int(self.r.p.timeNode))
+            key = (hook, self.pos) + cur
+            # what the database wrote between the previous recorder hook and this one is now visible
+            if self._pending[0] is not None:
+                written.append(self._pending[0])
+                self._pending[0] = None
+            seq[0] += 1
+            for q, b in enumerate(tracked):
+                b.p.power = 1000.0 * (q + 1) + seq[0]
+                b.p.flux = -1.0 * (q + 1) - seq[0] / 16.0
+            if key in pre_write:
+                step = pre_write[key]
+                log[step] = {(nm, pn): float(b.p[pn]) for nm, b in zip(names, tracked) for pn in params}
+                self._pending[0] = step
+                return  # the database writes right after this hook: the state it stores is the logged one
+            if state["closed"]:
+                return
+            if key == closed_after:
+                state["closed"] = True  # the database interface closes the file right after this hook (EOL)
+            steps = list(written)
+            if cur not in steps:
+                steps.append(cur)
+            preloaded_cur = did_preload = False
+            if preload:
+                if cur in written and EXCLUDE_KNOWN.get(SIG_PRELOAD) and not case.get("preloadCurrent"):
+                    # candidate defect: a preload made while the current step is already written caches the LIVE value for it
+                    # (Database.getHistories adds the live value for a current step it was not asked to read, and
+                    # DatabaseInterface.getHistories overlays it when the step was asked for): preload before the write only
+                    out.label("excluded:" + SIG_PRELOAD)
+                else:
+                    preloaded_cur = cur in written
+                    did_preload = True
+                    hti.preloadBlockHistoryVals(names, params, list(written))
+                    out.label("preloaded-before-the-write" if not preloaded_cur else "preloaded-after-the-write")
+            for ts in steps:
+                for nm, b in zip(names, tracked):
+                    for pn in params:
+                        got = hti.getBlockHistoryVal(nm, pn, ts)
+                        state["queries"] += 1
+                        if ts in log:
+                            want = log[ts][(nm, pn)]
+                            kind = "current-written" if ts == cur else "past"
+                        else:
+                            want = float(b.p[pn])
+                            kind = "current-live"
+                        state[kind] += 1
+                        if float(got) != want:
+                            out.fail(SIG_PRELOAD if (kind == "current-written" and preloaded_cur) else "tracker/%s-step-value" % kind,
+                                     "getBlockHistoryVal(%s, %s, %r) asked in %s hook of recorder %s at %r%s: %r, %s %r"
+                                     % (nm, pn, ts, hook, self.pos, cur, " (preloaded)" if did_preload else "", got,
+                                        "the database wrote" if ts in log else "the live value is", want))
+                            return
+            if preload:
+                hti.unloadBlockHistoryVals()
+
+        _pending = [None]
+
+        def interactBOL(self):
+            self._hit("BOL")
+
+        def interactBOC(self, cycle=None):
+            self._hit("BOC")
+
+        def interactEveryNode(self, cycle, node):
+            self._hit("EveryNode")
+
+        def interactCoupled(self, iteration):
+            self._hit("Coupled")
+
+        def interactEOC(self, cycle=None):
+            self._hit("EOC")
+
+        def interactEOL(self):
+            self._hit("EOL")
+
+    Recorder._pending = [None]
+    o.addInterface(Opener(r, cs))
+    o.addInterface(hti)
+    o.addInterface(Recorder(r, cs, "A"))
+    o.addInterface(dbi)
+    o.addInterface(Recorder(r, cs, "B"))
+    try:
+        with o:
+            o.operate()
+        out.check(hti.detailAssemblyNames == [r.core.childrenByLocator[r.core.spatialGrid[0, 0, 0]].getName()], "tracker/detail-assemblies",
+                  lambda: "detailAssemLocationsBOL ['001-001'] tracked %r" % (hti.detailAssemblyNames,))
+        nodes = cycles * (burn + 1)
+        out.check(len(log) == nodes, "harness/tracker-log", lambda: "logged %d writes, the run has %d nodes" % (len(log), nodes))
+        # the end-of-life report of the detail assembly lists every written step
+        reports = sorted(f for f in os.listdir(".") if f.endswith("-aHist.txt"))
+        if out.check(len(reports) == 1, "tracker/eol-report-missing", lambda: "history reports written at EOL: %r" % reports):
+            with open(reports[0]) as f:
+                head = f.readline().split()
+            want = ["(%d,%d)" % (c, n) for c in range(cycles) for n in range(burn + 1)]
+            out.check(head == want, "tracker/eol-report-steps", lambda: "EOL report lists steps %r, the run wrote %r" % (head, want))
+        out.nontrivial = state["current-written"] > 0 and state["past"] > 0
+        out.evals = max(1, state["queries"])
+        out.label("coupled" if coupled else "uncoupled", "layout:%dx%d" % (cycles, burn), "preload" if preload else "direct",
+                  "skipped-coupling:%s" % ("none" if not skip else "all" if len(skip) == cycles else "one"))
+        if state["current-live"]:
+            out.label("asked-current-unwritten-step")
+        if state["current-written"]:
+            out.label("asked-current-written-step")
+    finally:
+        if dbi._db is not None and dbi._db.isOpen():
+            dbi._db.close(False)
+        _rm(fn)
+        for f in os.listdir("."):
+            if f.endswith("Hist.txt"):
+                os.remove(f)
     return out
 
 
@@ -1255,13 +1465,22 @@ PARTS = [
               "an existing snapshot, load, keys/genTimeSteps/hasTimeStep, getHistory/getHistories/getHistor(y|ies)ByLocation on Database and "
               "DatabaseInterface incl. location, close+reopen, mergeHistory into a fresh file, splitDatabase); model {(c,n,label): observe at "
               "write}; listing checked after every step; non-trivial = a load of, or history over, >= 2 snapshots with a state change after a write"),
-    Part("faults", _guarded(fault_execute), enumerate=fault_enum, exhaustive=True, procs={"quick": 6, "thorough": 16},
-         rule="complete enumeration: every cycle layout within the bound, with and without tight coupling, the fault-free run and one run per "
+    Part("faults", _guarded(fault_execute), enumerate=fault_enum, exhaustive=True, procs={"quick": 7, "thorough": 16},
+         rule="complete enumeration: every cycle layout within the bound, with and without tight coupling (with it: no, one or all cycles listed in "
+              "cyclesSkipTightCouplingInteraction; every node is still written exactly once), the fault-free run and one run per "
               "(hook in BOL/BOC/EveryNode/Coupled/EOC/EOL, recorder position before/after the database interface, cycle, node) with an "
               "exception injected there; run through `with operator:`; oracle on the file in the working directory (exists, opens, "
               "successfulCompletion, exact snapshot listing, every snapshot's content incl. the error snapshot == state captured by the "
               "recorders); non-trivial = fault after at least one completed node write",
-         bound=lambda t: "cycles <= %d, burn steps <= %d (plus 1 cycle x 0 steps), tight coupling on/off, all hooks x 2 positions x cycles x nodes" % _BOUNDS[t]),
+         bound=lambda t: "cycles <= %d, burn steps <= %d (plus 1 cycle x 0 steps), tight coupling on/off, cyclesSkipTightCouplingInteraction none/one/all, all hooks x 2 positions x cycles x nodes" % _BOUNDS[t]),
+    Part("tracker", _guarded(tracker_execute), enumerate=tracker_enum, exhaustive=True, procs={"quick": 2, "thorough": 8},
+         rule="every cycle layout within the bound x tight coupling on/off x skipped-coupling cycles none/one/all x with/without "
+              "preloadBlockHistoryVals: fault-free run with armi's HistoryTrackerInterface in the stack (detail assembly through "
+              "detailAssemLocationsBOL); both recorders change the tracked block parameters at every hook and, after the change, ask "
+              "getBlockHistoryVal for every written step and the current step; oracle: a written step (the current one included) gives "
+              "the recorder's own log of the value at that write, the current unwritten step the live value; the EOL report lists every "
+              "written step; non-trivial = the run asked about a current, already written step and about past steps",
+         bound=lambda t: "cycles <= %d, burn steps <= %d (plus 1 cycle x 0 steps)" % _BOUNDS[t]),
     Part("known_shapes", _guarded(known_execute), enumerate=known_enum, exhaustive=False, procs={"quick": 1, "thorough": 1},
          rule="the three shapes the histories part avoids by construction (history of a never-assigned parameter of a Component subclass; "
               "by-location history of 'location'; history after a renumbering splitDatabase), each on a hex and a Cartesian reactor, so that "
